@@ -225,6 +225,11 @@ type Aff struct {
 	ensBusy map[*ssa.Function]bool
 	factMemo map[*ssa.BasicBlock][]Con
 	nsym    int
+	prepared map[*ssa.Function]bool
+	hdrInv   map[*ssa.BasicBlock][]Con
+	busy     map[*ssa.BasicBlock]bool
+	hdrBusy  map[*ssa.BasicBlock]bool
+	hitBusy  int
 	// Equate lets a property identify opaque values (lemmas), e.g. results of a pure helper on the same prefix.
 	Equate func(v ssa.Value) ssa.Value
 }
@@ -233,7 +238,7 @@ func NewAff(p *Prog) *Aff {
 	return &Aff{P: p, names: map[ssa.Value]string{}, lenName: map[ssa.Value]string{}, desc: map[string]string{},
 		symType: map[string]types.Type{}, symLen: map[string]bool{}, memo: map[ssa.Value]*Lin{},
 		loopInv: map[*ssa.Function][]Con{}, loopDone: map[*ssa.Function]bool{}, ens: map[*ssa.Function]*ensures{}, ensBusy: map[*ssa.Function]bool{},
-		factMemo: map[*ssa.BasicBlock][]Con{}}
+		factMemo: map[*ssa.BasicBlock][]Con{}, prepared: map[*ssa.Function]bool{}, hdrInv: map[*ssa.BasicBlock][]Con{}, busy: map[*ssa.BasicBlock]bool{}, hdrBusy: map[*ssa.BasicBlock]bool{}}
 }
 
 func (a *Aff) fnTag(v ssa.Value) string {
@@ -351,8 +356,11 @@ func (a *Aff) Lin(v ssa.Value) *Lin {
 	if l, ok := a.memo[v]; ok {
 		return l
 	}
+	hb := a.hitBusy
 	l := a.lin(v)
-	a.memo[v] = l
+	if a.hitBusy == hb {
+		a.memo[v] = l
+	}
 	return l
 }
 
@@ -379,7 +387,7 @@ func (a *Aff) lin(v ssa.Value) *Lin {
 			if isInteger(x.Type()) {
 				if isUnsigned(x.Type()) {
 					// wraps unless x >= y is known where it is computed
-					if !Entails(a.FactsAt(x.Block()), GE(a.Lin(x.X), a.Lin(x.Y))) {
+					if !a.Prove(x.Block(), GE(a.Lin(x.X), a.Lin(x.Y))) {
 						return LinSym(a.sym(v))
 					}
 				}
@@ -411,7 +419,7 @@ func (a *Aff) lin(v ssa.Value) *Lin {
 		}
 		from, to := x.X.Type(), x.Type()
 		if isUnsigned(to) && !isUnsigned(from) {
-			if Entails(a.FactsAt(x.Block()), GE(a.Lin(x.X), LinConst(0))) {
+			if a.Prove(x.Block(), GE(a.Lin(x.X), LinConst(0))) {
 				return a.Lin(x.X)
 			}
 			return LinSym(a.sym(v))
@@ -532,16 +540,47 @@ func (a *Aff) FactsAt(b *ssa.BasicBlock) []Con {
 	if f, ok := a.factMemo[b]; ok {
 		return f
 	}
-	a.factMemo[b] = nil // break recursion through Lin()->Entails()->FactsAt()
-	var out []Con
-	for _, f := range dominatingFacts(b) {
-		out = append(out, a.condCons(f.Cond, f.Val)...)
-		// comma-ok style facts on callee errors: ensures
-		out = append(out, a.ensuresFacts(f.Cond, f.Val)...)
+	if a.busy[b] {
+		a.hitBusy++
+		return nil
 	}
-	out = append(out, a.loopInvariants(b.Parent())...)
+	if fn := b.Parent(); !a.prepared[fn] {
+		// compute facts in reverse post-order so that the facts of dominators
+		// and of forward predecessors exist before they are needed
+		a.prepared[fn] = true
+		order, _ := topoBlocks(fn)
+		for _, x := range order {
+			a.FactsAt(x)
+		}
+		if f, ok := a.factMemo[b]; ok {
+			return f
+		}
+	}
+	a.busy[b] = true // break recursion through Lin()->Prove()->FactsAt()
+	hb := a.hitBusy
+	memoLen := len(a.memo)
+	_ = memoLen
+	var out []Con
+	// facts of the immediate dominator stay valid (SSA values are immutable
+	// and the dominator's last execution precedes b's)
+	if d := b.Idom(); d != nil {
+		out = append(out, a.FactsAt(d)...)
+		if ifi, ok := lastInstr(d).(*ssa.If); ok && len(d.Succs) == 2 && d.Succs[0] != d.Succs[1] {
+			for k, s := range d.Succs {
+				if s == b && edgeDominates(d, b, b) {
+					out = append(out, a.condCons(ifi.Cond, k == 0)...)
+					out = append(out, a.ensuresFacts(ifi.Cond, k == 0)...)
+				}
+			}
+		}
+	}
 	out = append(out, a.pathJoinFacts(b)...)
-	a.factMemo[b] = out
+	out = append(out, a.headerInvariants(b)...)
+	out = dedupCons(out)
+	delete(a.busy, b)
+	if a.hitBusy == hb {
+		a.factMemo[b] = out
+	}
 	return out
 }
 
@@ -630,12 +669,37 @@ func (a *Aff) pathJoinFacts(b *ssa.BasicBlock) []Con {
 // steps per iteration:  d_k*p_j - d_j*p_k  is invariant, and p >= init when
 // the step is non-negative.
 func (a *Aff) loopInvariants(fn *ssa.Function) []Con {
-	if a.loopDone[fn] {
-		return a.loopInv[fn]
-	}
-	a.loopDone[fn] = true
 	var out []Con
 	for _, h := range fn.Blocks {
+		out = append(out, a.headerInvariants(h)...)
+	}
+	return out
+}
+
+// headerInvariants: invariants of the loop headed by h (empty if h is not a loop header).
+func (a *Aff) headerInvariants(h *ssa.BasicBlock) []Con {
+	if inv, ok := a.hdrInv[h]; ok {
+		return inv
+	}
+	hbH := a.hitBusy
+	isHeader := false
+	for _, p := range h.Preds {
+		if h.Dominates(p) {
+			isHeader = true
+		}
+	}
+	if !isHeader {
+		a.hdrInv[h] = nil
+		return nil
+	}
+	if a.hdrBusy[h] {
+		a.hitBusy++
+		return nil
+	}
+	a.hdrBusy[h] = true
+	defer delete(a.hdrBusy, h)
+	var out []Con
+	{
 		type adv struct {
 			cur  *Lin // the phi as a linear quantity (value, or length for slices)
 			init *Lin
@@ -733,7 +797,9 @@ func (a *Aff) loopInvariants(fn *ssa.Function) []Con {
 			}
 		}
 	}
-	a.loopInv[fn] = out
+	if a.hitBusy == hbH {
+		a.hdrInv[h] = out
+	}
 	return out
 }
 
